@@ -465,7 +465,7 @@ func (k kase) human() string {
 
 func run(c *hx.Ctx) error {
 	res := c.Res
-	res.Rule = "every type of a fixed catalogue (all kinds, named variants, implementations of each of the 13 interfaces, trusted format types, []byte, time.Time, pointers, maps with each key kind, structs, recursive types, and each of them boxed in `any`) and seeded random composite types (reflect.SliceOf/ArrayOf/MapOf/PointerTo/StructOf, depth ≤ 3), each shown in every one of 20 placements covering the 17 model positions; one template built and run per case; a case is non-trivial when the build accepts it (so that the run side is exercised); distinct by (placement, type)"
+	res.Rule = "every type of a fixed catalogue (all kinds, named variants, implementations of each of the 13 interfaces, trusted format types, []byte, time.Time, pointers, maps with each key kind, structs, recursive types, and each of them boxed in `any`) and seeded random composite types (reflect.SliceOf/ArrayOf/MapOf/PointerTo/StructOf, depth ≤ 3), each shown in every one of 20 placements covering the 17 model positions; one template built and run per case; a case is non-trivial when the build accepts it (so that the run side is exercised); distinct by (placement, type). Second stream (forms.go): the form of the shown expression varies — identifier, parenthesised, show statement, conversion, index, map index, selector, call, call with (T, error), dereference, address, local variable, type assertion, function literal call, two expressions in one show, `x default y` with x declared / not declared and every pairing of type classes, macro call results, render expressions (also left of default, present or missing), itea with using, constant and composite literals, untyped nil — over ~65 type classes × the 20 placements; the model answers with the regenerated Show case run over the operand pairs; non-trivial when the build accepts; distinct by (form, placement, type classes)"
 
 	// 0. the model's own table check and reflect.Kind numbering
 	if c.D != nil {
@@ -615,7 +615,9 @@ func run(c *hx.Ctx) error {
 				Impl: ro.class + " " + ro.msg, Model: f[2]})
 		}
 	}
-	return nil
+
+	// 3. the expression-form dimension (forms.go)
+	return runForms(c)
 }
 
 // oracle says which clause of the property a failing run of a built template breaks ("" if
